@@ -435,13 +435,17 @@ pub fn finish(rep: Report, stats: Stats) -> i32 {
             c.insert(k.clone(), v.clone());
         }
     }
+    let mut assumptions = rep.assumptions.clone();
+    if let Ok(note) = std::env::var("VERIF_CHECKED_RUN") {
+        assumptions.push(note);
+    }
     let ev = json!({
         "property_id": rep.property,
         "tier": if rep.mode == Mode::Quick { "quick" } else { "thorough" },
         "seed": rep.seed,
         "level": "model_checking",
         "coverage": coverage,
-        "assumptions": rep.assumptions,
+        "assumptions": assumptions,
         "wall_s": wall,
         "violations": new_violations,
         "known_findings_hit": known_hits.len(),
